@@ -257,6 +257,13 @@ def explore(body, start, facts=None, removed_edges=(), removed_blocks=(), learn=
                 if whole:
                     bf.pop(l, None)
                     rv = s.get("rv")
+                    # an enum value built or copied here carries its variant (`let x = if c { Some(..) } else { None }; if let Some(..) = x`)
+                    if rv and rv["k"] == "agg" and rv.get("agg") == "adt" and rv.get("variant"):
+                        vf[(l, "[]")] = rv["variant"].split("::")[-1]
+                    elif rv and rv["k"] == "use" and ("copy" in rv["op"] or "move" in rv["op"]):
+                        src0 = rv["op"].get("copy") or rv["op"].get("move")
+                        if not src0["p"] and (src0["l"], "[]") in vf:
+                            vf[(l, "[]")] = vf[(src0["l"], "[]")]
                     if rv and rv["k"] == "use" and "const" in rv["op"] and rv["op"]["const"]["ty"] == "bool":
                         v = rv["op"]["const"].get("val", {})
                         if v.get("kind") == "int":
